@@ -24,6 +24,7 @@ struct Mesh {
 struct MeshOpts {
 	uint32_t maxVerts = 300;
 	uint32_t maxTris = 500;
+	uint32_t minTris = 0; // lower bound on the number of triangle draws (duplicates are dropped)
 	bool allowLimits = false;	  // 65534 / 65535 vertices
 	bool allowUnusedVerts = true; // vertices no triangle uses
 	bool alwaysNormals = false;
@@ -79,6 +80,8 @@ inline Mesh genMesh(Tape& t, const MeshOpts& o) {
 		uint32_t want = t.count(24);
 		if (t.chance(40))
 			want = t.range(0, o.maxTris);
+		if (want < o.minTris)
+			want = o.minTris + want;
 		std::set<uint64_t> seen;
 		const bool coverAll = !o.allowUnusedVerts || t.coin();
 		uint32_t maxIdx = nv - 1;
